@@ -12,7 +12,7 @@ from architecture_simulator.isa.riscv.instruction_types import (
     RTypeInstruction, ITypeInstruction, STypeInstruction, BTypeInstruction, UTypeInstruction, JTypeInstruction, EmptyInstruction)
 from architecture_simulator.isa.riscv.rv32i_instructions import ADD, ADDI, LW, SW, SB, BEQ, BNE, BLT, JAL, JALR, LUI, MUL, ECALL
 from contracts.rvcommon import *
-from contracts.c02_pipeline import twin_states, load, R, NOP, PRODUCERS, CONSUMERS, HEADS, VICTIMS
+from contracts.c02_pipeline import twin_states, load, R, NOP, PRODUCERS, CONSUMERS, HEADS, VICTIMS, MIX
 from spec.sched import Entry, schedule
 from spec.smem import SpecMemory
 
@@ -139,6 +139,22 @@ for _h in ("beq+12", "jal+12", "add-then-blt+12"):
         c07_control(_h, _v, "quick" if (_h, _v) in (("beq+12", "alu"), ("jal+12", "store"), ("beq+12", "print-ecall"), ("add-then-blt+12", "alu")) else "thorough",
                     a7=1 if _v == "print-ecall" else None)
 c07_control("exit-ecall", "alu", "quick", a7=93)
+
+
+def c07_mix(name):
+    @unit("C07/mix/" + name, expect_reach=("finished",))
+    def u():
+        prog, a7 = MIX[name]
+
+        def prep(st):
+            st.register_file.registers[3] = UInt32(LO + 64)
+            if a7 is not None:
+                st.register_file.registers[17] = UInt32(a7)
+        timing(prog, prepare=prep)
+
+
+for _n in MIX:
+    c07_mix(_n)
 
 
 @unit("C07/ecall/held-until-older-left-mem", expect_reach=("finished",))
